@@ -234,11 +234,15 @@ def op_update_key_clash(msg, ref):
 op_update_key_clash.base = "update_key"
 
 
-def op_update_avps(value):
+def op_update_avps(value, strict=False):
     def f(msg, ref):
         names = names_of(msg)
         target = names.get("origin_host_avp")
-        msg.update_avps({"origin_host": value})
+        if strict:
+            # silent_errors=False: the same update when the key exists, a library error (nothing changed) when it does not
+            msg.update_avps({"origin_host": value}, silent_errors=False)
+        else:
+            msg.update_avps({"origin_host": value})
         if target is not None:
             # data changes only: the slot keeps its position; the (single) object now bound to the name must be the one listed
             for i, o in enumerate(ref.lst):
@@ -248,7 +252,7 @@ def op_update_avps(value):
                     if new is not None and (new.data != value.encode() or new.get_code() != 264):
                         f.detail = "wrong-data"
                     break
-    f.__name__ = "update_avps(origin_host=%s)" % value
+    f.__name__ = "update_avps(origin_host=%s%s)" % (value, ",strict" if strict else "")
     f.base = "update_avps"
     return f
 
@@ -281,7 +285,7 @@ OPS = [op_append("A"), op_append("A"), op_append("B"), op_append("U"), op_append
        op_pop("first"), op_pop("last"), op_pop("mid"), op_cleanup, op_setavps("AB"), op_setavps("A"), op_setitem("first", "B"),
        op_setitem("last", "A"), op_setitem("last", "U"), op_setitem("first", "P"), op_update_key, op_update_key_clash, op_refused("append-non-avp"), op_refused("extend-with-junk-at-the-end"), op_refused("avps=-with-junk"), op_refused("pop-unknown"),
        op_refused("setitem-out-of-range"), op_refused("update_avp-unknown"), op_refused("update_key-unknown"), op_refused("update_avps-unknown"),
-       op_update_avps("new.host"), op_update_avps("x"), op_refresh,
+       op_update_avps("new.host"), op_update_avps("x"), op_update_avps("strict.host", strict=True), op_refresh,
        op_extend("AU"), op_append("S"), op_update_avp("a.much.longer.host.name"), op_update_avp("q"), op_append_again]
 OPS = OPS[1:]   # one append(A) is enough: every call creates a fresh, equal-valued object
 
